@@ -918,8 +918,9 @@ prop("C12", [U_CMP_SCALAR, U_CMP_TAGS, U_ORDERING, U_UCMP], "other",
 prop("C11", [U_BINOP_SCALAR, U_BINOP_DISPATCH, U_BINOP_ROUTE, U_ORDERING, U_BCAST_LS, U_BCAST_LL], "other",
      "Scalar half of C11 (quick tier): the scalar arm block and the dot-operator arms of evaluate_binary_op_ast are sliced "
      "verbatim and proved against the statement for all operators and all scalar operands (all f64; * / % only partially). "
-     "Broadcasting (thorough tier only, bounded): each of the 17 operators x {list-scalar, list-list} blocks against the scalar "
-     "arm for lists of length <= 2, 10-20 CPU minutes per harness.",
+     "Broadcasting (thorough tier only, bounded): the list-scalar and list-list blocks against the scalar arm for lists of "
+     "length <= 2, for the six operators whose harnesses discharge (- ?? and or && ||; 2.5-17 min each). For * / % ^ + and the "
+     "comparisons the harnesses exist but time out, run out of memory, or hit CBMC's non-functional powf.",
      ["broadcasting arms (list-scalar, scalar-list, list-list): >15 min in CBMC even at length 2; Verus rejects the text",
       "string concatenation by + (format!/String)", "the value of ^ beyond 'a number' (f64::powf primitive)"],
      BINOP_STUBS)
